@@ -86,6 +86,48 @@ def run(R):
         else:
             dist["no-fault"] = dist.get("no-fault", 0) + 1
         prev_fault = None
+    # large working areas (>= 32 MiB: alloc_region first asks for huge pages and retries with regular pages): implementation only, the
+    # request pattern depends on whether the host has huge pages reserved, so the model does not predict it (seeded/C15b).  Every
+    # single fault position 1..4: the process must survive, a failing call must fail cleanly, the next call must work.
+    big = [b"$y$jAT$abcd", b"$gy$jAT$abcd", b"$7$A6..../....abcd"]
+    bops = []
+    for st in big:
+        bops += ["O 0 p 3", "CF rn 0 %s %s" % (hx(b"pw"), hx(st))]
+        for k in (1, 2, 3, 4):
+            bops += ["O 0 p 3", "FAULT %d" % k, "CF rn 0 %s %s" % (hx(b"pw"), hx(st)), "CF rn 0 %s %s" % (hx(b"pw"), hx(st))]
+    bl = R.run_impl(bops, wraps=WRAPS, timeout=600)
+    if R.last_impl_rc != 0 or len(bl) != len(bops):
+        # output is block-buffered: find the group that kills the process by running the groups one by one
+        groups_b, cur = [], []
+        for o in bops:
+            if o.startswith("O ") and cur: groups_b.append(cur); cur = []
+            cur.append(o)
+        groups_b.append(cur)
+        culprit, rc, err = None, R.last_impl_rc, R.last_impl_stderr
+        for gb in groups_b:
+            out1 = R.run_impl(gb, wraps=WRAPS, timeout=600)
+            if R.last_impl_rc != 0 or len(out1) != len(gb):
+                culprit, rc, err = " ; ".join(gb[1:3]), R.last_impl_rc, R.last_impl_stderr; break
+        bad.append((culprit or bops[-1], "the process died (rc=%s) when a mapping request of a large yescrypt-family hash failed: %s"
+                    % (rc, (err or "")[-200:].replace("\n", " ")), ""))
+    else:
+        ref_out = {}
+        pf = None
+        for i, (op, line) in enumerate(zip(bops, bl)):
+            if op.startswith("FAULT"): pf = int(op.split(" ")[1]); continue
+            if not op.startswith("CF "): continue
+            f = fields(line)
+            if pf is None and f.get("fired") == "0": ref_out.setdefault(op, f.get("out"))
+            if f.get("fired") == "1":
+                failed = f.get("ret") == "NULL" or f.get("out", "").startswith("2a")
+                if f.get("abort") != "0": bad.append((op + " with request %d failing" % pf, "the call aborted", line))
+                elif failed and f.get("errno") not in ("ENOMEM", "EINVAL", "ERANGE"): bad.append((op + " with request %d failing" % pf, "errno %s after a mapping failure" % f.get("errno"), line))
+                elif not failed and f.get("out") != ref_out.get(op): bad.append((op + " with request %d failing" % pf, "a different hash was returned after a mapping failure", line))
+                nxt = bl[i + 1] if i + 1 < len(bl) else None
+                if nxt is not None and op in ref_out and fields(nxt).get("out") != ref_out[op]:
+                    bad.append((op, "the call following a failed mapping request does not give the fault-free answer", nxt))
+            pf = None
+    R.cov["large_area_ops"] = len(bops)
     R.cov["evaluations"] = sum(1 for o in ops if o.startswith(("CF ", "RA ")))
     R.cov["distinct_nontrivial"] = dist.get("fault-fired", 0)
     R.cov["exhaustive"] = True
